@@ -54,7 +54,9 @@ pub fn tokenize(source: &str, file_id: &FileId) -> (Vec<Token>, Vec<Diagnostic>)
                                     col = 0;
                                 }
                                 _ => {
-                                    col += 0;
+                                    // Columns count bytes, like the span length used for
+                                    // every other token
+                                    col += c.len_utf8();
                                 }
                             }
                         }
